@@ -216,10 +216,19 @@ def check_wire(fx, svc, name, x, is_core, pad, rec, seq):
             b = P.client.BatchProxy(p)
             b.get(key)
             b.echo(key, sent)
+            b.echo(key + "#kw", sent, kw=sent)         # a call with keyword arguments ...
+            b.echo(key + "#nokw", sent)                # ... followed by one without: it must receive none
             return list(b())
         bat = outcome(do_batch)
         with svc.lock:
             recv_b = svc.received.pop(key, None)
+            recv_kw = svc.received.pop(key + "#kw", None)
+            recv_nokw = svc.received.pop(key + "#nokw", None)
+        if not is_raised(bat) and recv_nokw is not None and (recv_nokw[1] != {} or recv_kw is None or set(recv_kw[1]) != {"kw"} or len(recv_nokw[0]) != 1):
+            rec.violation("batched-call-arguments-differ:%s" % name, "%s: inside one batch echo(v, kw=v) then echo(v): the second call received args=%s kwargs=%s, the first kwargs=%s" % (
+                name, core.short(recv_nokw[0], 100), core.short(recv_nokw[1], 100), core.short(recv_kw[1] if recv_kw else None, 100)), pay)
+            del svc.store[key]
+            return
         strm = outcome(lambda: consume(p.stream(key)))
         # the bare value (not wrapped in a list) as result, as stream item and as positional / keyword argument
         bare = outcome(lambda: p.getbare(key))
